@@ -17,24 +17,18 @@ def tables : List (String → List String → Option String) := []
   ++ [Drv.table]
   ++ [Drv.monitorsTable]
   ++ [Drv.codecsTable]
+  ++ [Drv.TracksV1.specTable]
+  ++ [Drv.T2.table]
 
 /-- Stateful groups, selected by a first line `#mode <name>`. -/
 def modes : List Mode := []
   ++ [Drv.Schema.mode]
   ++ [Drv.CratesV2.mode]
   ++ [Drv.CratesV2Spec.mode]
-  ++ [Drv.TracksV1.specTable]
-
-/-- Stateful groups, selected by a first line `#mode <name>`. -/
-def modes : List Mode := []
   ++ [Drv.TracksV1.mode]
   ++ [Drv.CratesV1.mode]
   ++ [Drv.CratesV1Oracle.mode]
   ++ [Drv.CratesV1Explore.mode]
-  ++ [Drv.T2.table]
-
-/-- Stateful groups, selected by a first line `#mode <name>`. -/
-def modes : List Mode := []
   ++ [Drv.T2.mode]
 
 def dispatch (line : String) : String :=
